@@ -130,7 +130,7 @@ def force_ending(rng, stmt, base):
     if how == "stop":
         if s.get("callback") is None:
             s["callback"] = {"style": rng.pick(["pos", "kw", "obj", "lambda"]), "mutate": False}
-        s["callback"]["stop_at"] = rng.randint(1, N)
+        s["callback"]["stop_at"] = rng.wpick([(1, 1), (3, rng.randint(1, N))])
     elif how == "budget":
         o["maxfev"] = rng.randint(1, N)
     elif how == "budget_init":
@@ -162,9 +162,11 @@ def faulted_case(prop, seed, idx, tier):
     cr.add_viols(apply_props(base, props, st), payload_world(stmt, [], props))
     st["fault_free_worlds"] += 1
     rf = Rng(seed, "fault", prop, idx)
-    if prop == "C07":
+    if prop == "C07" or (prop in ("C08", "C02", "C03") and rf.chance(0.35)):
         stmt2, how = force_ending(rf, stmt, base)
         st["forced." + how] += 1
+        if how == "none":
+            stmt2 = stmt
     else:
         stmt2 = stmt
     level = None
